@@ -145,6 +145,21 @@ impl<'a> Ctx<'a> {
     }
 
     fn gen_val(&mut self) -> Val {
+        if self.big && self.rng.chance(1, 8) {
+            // more than 15 overflow pages: the cell holds only the first 15 page numbers
+            let len = match self.rng.below(3) {
+                0 => 15 * 4092 + self.rng.range(1, 3),
+                1 => 16 * 4092 + self.rng.below(3) - 1,
+                _ => 65536 + self.rng.below(5000),
+            };
+            let mut x = self.rng.next();
+            return (0..len)
+                .map(|_| {
+                    x = x.wrapping_mul(6364136223846793005).wrapping_add(1442695040888963407);
+                    (x >> 33) as u8
+                })
+                .collect();
+        }
         let big = self.big && self.rng.chance(1, 3);
         gen_value(&mut self.rng, big)
     }
